@@ -343,7 +343,7 @@ int openssl_process_rsa(json_t *jwk, jwk_item_t *item)
 	if (alg) {
 		alg_str = json_string_value(alg);
 
-		if (alg_str[0] == 'P')
+		if (alg_str && alg_str[0] == 'P')
 			is_rsa_pss = 1;
 	}
 
